@@ -233,6 +233,8 @@ func runC09(c *Ctx) {
 	}
 	// ---- supervisor half: the three real state machines give up exactly per the window rule (c08sim.go) ----
 	supGiveUp(c)
+	// ---- the options the machines get: defaults for zero Intensity / Period, on a real node ----
+	c09defaults(c)
 }
 
 func dashList(xs []int64) string {
